@@ -647,6 +647,11 @@ class Interp:
                     return self.truth(self.call(BoundMethod(v, m), [], {}))
             return True
         if isinstance(v, Opaque):
+            h = self.hooks.get('truth')
+            if h:
+                r = h(self, v)
+                if r is not None:
+                    return self.run.branch(r) if not isinstance(r, bool) else r
             raise Unsupported('truth of %r' % v)
         if isinstance(v, SymDictBase):
             raise Unsupported('truth of symbolic dict')
@@ -728,8 +733,18 @@ class Interp:
                 return d.lift(a)
             if not is_sym(a) and int(a) == 0:
                 return d.lift(b)
+            if d.name == 'INT' and (not is_sym(a) or not is_sym(b)):
+                # x | c == x + c - (x & c)   (two's complement identity, all integers)
+                x, c = (a, int(b)) if is_sym(a) else (b, int(a))
+                x = d.lift(x)
+                return d.sub(d.add(x, d.const(c)), d.and_const(x, c))
             return d.bitop('|', d.lift(a), d.lift(b))
         if op is ast.BitXor:
+            if d.name == 'INT' and (not is_sym(a) or not is_sym(b)):
+                # x ^ c == x + c - 2 * (x & c)
+                x, c = (a, int(b)) if is_sym(a) else (b, int(a))
+                x = d.lift(x)
+                return d.sub(d.add(x, d.const(c)), d.mul(d.const(2), d.and_const(x, c)))
             return d.bitop('^', d.lift(a), d.lift(b))
         if op is ast.Div:
             return Ratio(a, b)
@@ -963,6 +978,26 @@ class Interp:
             raise Unsupported('attribute %s of %r' % (name, obj))
         if isinstance(obj, FuncVal) and name == '__name__':
             return obj.name
+        if isinstance(obj, FuncVal):
+            attrs = getattr(obj, 'attrs', None)
+            if attrs is not None and name in attrs:
+                return attrs[name]
+            py_raise('AttributeError', "'function' object has no attribute '%s'" % name)
+        if isinstance(obj, Builtin) and obj.name == 'int' and name == 'from_bytes':
+            def from_bytes(it, a, k):
+                data = a[0]
+                order = a[1] if len(a) > 1 else k.get('byteorder', 'big')
+                signed = k.get('signed', False)
+                if isinstance(data, (bytes, bytearray)):
+                    return int.from_bytes(data, order, signed=signed)
+                if isinstance(data, ByteSeq) and not signed:
+                    items = data.items if order == 'little' else list(reversed(data.items))
+                    tot = 0
+                    for i, b in enumerate(items):
+                        tot = it.binop(ast.Add, tot, it.binop(ast.Mult, b, 256 ** i))
+                    return tot
+                raise Unsupported('int.from_bytes(%r)' % (data,))
+            return Builtin('int.from_bytes', from_bytes)
         if isinstance(obj, CUInt):
             if name == 'value':
                 return obj.value
@@ -1024,6 +1059,15 @@ class Interp:
                             it.type_error('sequence item: expected str')
                         return seq[0]
                     return Opaque('str')
+            if name == 'join' and isinstance(obj, (bytes, bytearray)) and args:
+                seq = list(it.iterate(args[0]))
+                if any(not isinstance(x, (bytes, bytearray)) for x in seq):
+                    if len(obj) == 0 and all(isinstance(x, (bytes, bytearray, Opaque, SymRepeat, ByteBuf)) for x in seq):
+                        parts = []
+                        for x in seq:
+                            parts += x.parts if isinstance(x, ByteBuf) else [bytes(x) if isinstance(x, bytearray) else x]
+                        return ByteBuf(parts, frozen=True)
+                    raise Unsupported('bytes.join over symbolic chunks with a separator')
             if name in ('append', 'extend', 'update', 'add', 'remove', 'insert', 'pop', 'clear', 'setdefault', 'sort'):
                 it.note_mutation(obj, name)
             if name == 'extend' and isinstance(obj, (list, bytearray)):
@@ -1044,6 +1088,9 @@ class Interp:
             try:
                 return getattr(obj, name)(*args, **kwargs)
             except Exception as e:
+                if _has_model(args) or _has_model(list(kwargs.values())):
+                    # the host failed on the executor's own model objects: not an exception of the interpreted program
+                    raise Unsupported('%s.%s on symbolic values (%s)' % (type(obj).__name__, name, type(e).__name__))
                 it.reraise(e)
         return Builtin('%s.%s' % (type(obj).__name__, name), impl)
 
@@ -1641,6 +1688,11 @@ class Interp:
             self.note_mutation(obj, 'setattr:' + name)
             obj.attrs[name] = v
             return
+        if isinstance(obj, FuncVal):
+            if getattr(obj, 'attrs', None) is None:
+                obj.attrs = {}
+            obj.attrs[name] = v
+            return
         if isinstance(obj, Opaque):
             h = self.hooks.get('opaque_setattr')
             if h:
@@ -1676,12 +1728,13 @@ class Interp:
             self.exec_block(s.orelse, env)
 
     def s_For(self, s, env):
+        itv = self.eval(s.iter, env)
         h = self.hooks.get('for')
         if h:
-            r = h(self, s, env)
+            r = h(self, s, env, itv)
             if r is not None:
                 return
-        it = self.iterate(self.eval(s.iter, env))
+        it = self.iterate(itv)
         broke = False
         for x in it:
             self.assign(s.target, x, env)
@@ -1819,6 +1872,17 @@ class Interp:
             env.vars[a.asname or a.name] = m.attrs[a.name]
 
 
+def _has_model(vals, depth=0):
+    for v in vals:
+        if isinstance(v, (Sym, Opaque, SObj, SymRepeat, SymBytes, ByteBuf, SymDictBase)):
+            return True
+        if depth < 3 and isinstance(v, (list, tuple, set)) and _has_model(list(v), depth + 1):
+            return True
+        if depth < 3 and isinstance(v, dict) and _has_model(list(v.values()), depth + 1):
+            return True
+    return False
+
+
 def env_lookup_default(env, name, default=None):
     try:
         return env.lookup(name)
@@ -1883,6 +1947,15 @@ class ByteBuf:
 
     def __deepcopy__(self, memo):
         return self
+
+
+class ByteSeq(Opaque):
+    """a bytes object whose individual bytes are symbolic integers 0..255"""
+
+    def __init__(self, items):
+        super().__init__('bytes')
+        self.items = list(items)
+        self.length = len(self.items)
 
 
 class Ratio(Opaque):
@@ -2079,6 +2152,11 @@ def _b_range(it, args, kw):
 
 
 def _b_enumerate(it, args, kw):
+    h = it.hooks.get('enumerate')
+    if h:
+        r = h(it, args, kw)
+        if r is not None:
+            return r
     start = kw.get('start', args[1] if len(args) > 1 else 0)
     return [(i, x) for i, x in enumerate(it.iterate(args[0]), start)]
 
@@ -2141,6 +2219,16 @@ def _b_bytes(it, args, kw):
         return v
     if isinstance(v, ByteBuf):
         return ByteBuf(v.parts, frozen=True)
+    if isinstance(v, int) and not isinstance(v, bool):
+        if v < 0:
+            py_raise('ValueError', 'negative count')
+        return bytes(v)
+    if isinstance(v, Sym) and v.sort == 'int':
+        if it.truth(it.compare(ast.Lt(), v, 0)):
+            py_raise('ValueError', 'negative count')
+        return SymRepeat(b'\x00', v)
+    if isinstance(v, (list, tuple)) and all(isinstance(x, int) for x in v):
+        return bytes(v)
     raise Unsupported('bytes(%r)' % (v,))
 
 
@@ -2178,6 +2266,23 @@ def _b_abs(it, args, kw):
 def _b_divmod(it, args, kw):
     a, b = args
     return (it.binop(ast.FloorDiv, a, b), it.binop(ast.Mod, a, b))
+
+
+def _b_iter(it, args, kw):
+    v = it.iterate(args[0])
+    return iter(v) if not hasattr(v, '__next__') else v
+
+
+def _b_next(it, args, kw):
+    g = args[0]
+    if not hasattr(g, '__next__'):
+        it.type_error('object is not an iterator')
+    try:
+        return next(g)
+    except StopIteration:
+        if len(args) > 1:
+            return args[1]
+        py_raise('StopIteration')
 
 
 def _b_bool(it, args, kw):
@@ -2275,7 +2380,7 @@ for _n, _f in [('len', _b_len), ('isinstance', _b_isinstance), ('type', _b_type)
                ('range', _b_range), ('enumerate', _b_enumerate), ('print', _b_print), ('ord', _b_ord),
                ('set', _b_set), ('list', _b_list), ('tuple', _b_tuple), ('dict', _b_dict), ('bytes', _b_bytes),
                ('bytearray', _b_bytearray), ('min', _b_minmax(min)), ('max', _b_minmax(max)), ('abs', _b_abs),
-               ('divmod', _b_divmod), ('bool', _b_bool)]:
+               ('divmod', _b_divmod), ('bool', _b_bool), ('iter', _b_iter), ('next', _b_next)]:
     _reg(_n, _f)
 BUILTINS['object'] = EXC['object']
 BUILTINS['True'] = True
